@@ -35,7 +35,7 @@ theorem forward_compat_msg (E : Ext) {ρ : Rho} {A B : Env} {tA tB : PTy} (hs : 
     (h : decode E B [] sB tB j = .ok w) :
     decode E A [] false tA j = .ok (view ρ A tA w) := by
   obtain ⟨cx, hty⟩ := ctx_of hs hA hB hxA huB
-  exact decode_sub E cx j tA tB sB w hty hw h
+  exact decode_sub E cx j tA tB false sB w hty hw (fun h => by cases h) h
 
 /-- FORWARD COMPATIBILITY, wire form.  `hrt` is the round trip of the newer spec on its own message (C04 / C05 for B:
 `decode (wire v)` succeeds); given that, the older spec reads the message as the A-view of what B itself reads back.
@@ -48,6 +48,21 @@ theorem forward_compat_partial (E : Ext) {ρ : Rho} {A B : Env} {tA tB : PTy} (h
     (hrt : decode E B [] sB tB (wire E B tB v) = .ok w) :
     decode E A [] false tA (wire E B tB v) = .ok (view ρ A tA w) :=
   forward_compat_msg E hs hA hB hxA huB hw _ sB w hrt
+
+/-- STRICT DECODING ACCEPTS WHAT IT KNOWS (one half of `strict_rejects_iff`, message form, full generality).
+A document that the newer spec's decoder accepts and that contains nothing the older spec does not know at this type
+(`knownDoc`: every member is a field, every tag a tag, every subtype listed, Void tags bare) is accepted by the older
+spec's *strict* decoder too, as the same A-view.  Contrapositive: strict decoding under A refuses only B-messages that
+contain something A does not know.
+The converse half (`knownDoc A tA j = false → decode E A [] true tA j` is a validation error, for documents without
+repeated keys) is not proved: `compat.known` / `compat.mentions` compare it with the real decoder on every case. -/
+theorem strict_accepts_known_partial (E : Ext) {ρ : Rho} {A B : Env} {tA tB : PTy} (hs : subB ρ A B tA tB = true)
+    (hA : envWF A = true) (hB : envWF B = true) (hxA : envWFX A = true) (huB : envWFU B = true)
+    (hw : tyWF A tA = true) (j : JVal) (sB : Bool) (w : PyVal)
+    (h : decode E B [] sB tB j = .ok w) (hk : knownDoc A tA j = true) :
+    decode E A [] true tA j = .ok (view ρ A tA w) := by
+  obtain ⟨cx, hty⟩ := ctx_of hs hA hB hxA huB
+  exact decode_sub E cx j tA tB true sB w hty hw (fun _ => hk) h
 
 /-- the A-view of `None` is `None` at every type -/
 theorem view_none (ρ : Rho) (A : Env) (t : PTy) : view ρ A t .none = .none :=
